@@ -3,6 +3,7 @@
 set -e
 cd "$(dirname "$0")"
 ROOT=$(pwd)
+mkdir -p "$ROOT/.work"
 cd "$ROOT/coq"
 if [ -f "$ROOT/harness/wiring_gen.py" ]; then
   PYTHONDONTWRITEBYTECODE=1 /venv/bin/python "$ROOT/harness/wiring_gen.py" > Generated/Wiring.v.tmp
@@ -11,9 +12,9 @@ fi
 if [ ! -f Makefile ] || [ _CoqProject -nt Makefile ]; then
   coq_makefile -f _CoqProject -o Makefile > /dev/null
 fi
-timeout 3000 make -j16 2>&1 | grep -v "^COQDEP\|^COQC\|^make" || true
-# make's own exit status:
-timeout 3000 make -j16 > /dev/null 2>&1
+# 1. the executable model (must build even when a proof is broken)
+timeout 3000 make -j16 Model/Dispatch.vo 2>&1 | grep -v "^COQDEP\|^COQC\|^make" || true
+timeout 3000 make -j16 Model/Dispatch.vo > /dev/null 2>&1
 cd "$ROOT/ocaml"
 if [ ! -f model.ml ] || [ -n "$(find "$ROOT/coq/Model" "$ROOT/coq/Core" -name '*.vo' -newer model.ml | head -1)" ] || [ "$ROOT/coq/Extract/Extract.v" -nt model.ml ]; then
   timeout 600 coqc -Q ../coq VK ../coq/Extract/Extract.v > /dev/null
@@ -23,4 +24,13 @@ if [ ! -x driver ] || [ model.ml -nt driver ] || [ driver.ml -nt driver ]; then
   timeout 600 ocamlfind ocamlopt -O3 -w -a model.mli model.ml driver.ml -o driver > /dev/null 2>&1 || \
   timeout 600 ocamlfind ocamlopt -w -a model.mli model.ml driver.ml -o driver
 fi
-echo BUILD-OK
+if [ -n "$VERIF_MODEL_ONLY" ]; then echo BUILD-OK; exit 0; fi   # development aid, never used by registered checks
+# 2. the whole development (proofs); -k so that every independent file is still checked
+cd "$ROOT/coq"
+if timeout 3000 make -k -j16 > "$ROOT/.work/make.log" 2>&1; then
+  echo BUILD-OK
+else
+  grep -B2 -A12 "^Error\|Error:" "$ROOT/.work/make.log" | head -60
+  echo BUILD-PROOFS-FAILED
+  exit 3
+fi
